@@ -472,8 +472,13 @@ def conversion_leaves_argument_alone(ctx):
 def own_rebuild_before_dependents(ctx):
     """The propagation of a change rebuilds the function itself before it walks its dependents."""
     repo = ctx.repo
-    upd = A.update_method(repo)
     build = A.build_method(repo)
+    try:
+        upd = A.update_method(repo)
+    except AnalysisError:
+        # no method rebuilds a built function at all (C05.R2 / C16.R3 report that): nothing to order
+        ctx.ob(f"{build.key}:no-propagation-to-order", build.loc(), "no propagation method: the ordering of own rebuild and dependents is not applicable", True, "")
+        return
     ctx.touch(upd)
     rv = recv_name(upd)
     cfg = cfg_of(ctx, upd)
@@ -481,7 +486,7 @@ def own_rebuild_before_dependents(ctx):
     loops = [s for s in all_stmts(upd.node) if isinstance(s, ast.For) and any(isinstance(c, ast.Call) and isinstance(c.func, ast.Attribute) and c.func.attr == upd.name and not is_self_attr(c.func, selfname=rv) for c in ast.walk(s))]
     if not (own and loops):
         # nothing to order (the presence of both is C05.R2 / C16.R3's obligation)
-        ctx.note(f"{upd.key}: own rebuild or dependents' walk absent; ordering obligation not applicable")
+        ctx.ob(f"{upd.key}:nothing-to-order", upd.loc(), "own rebuild or dependents' walk absent: the ordering obligation is not applicable", True, "")
         return
     own_nodes = {cfg.node_of(s) for s in own}
     # the guard of the own rebuild (`if self._compiled:`) counts as the own-rebuild point
